@@ -309,6 +309,14 @@ ORDER = [_order_contract(n) for n in range(0, 4)]
 CONTRACTS = [_start_match, _fuzzy_match, _match, _complete, _complete_prop, _nws, _prefix_len, _param_eq,
              _filter_names] + ORDER
 
+def _standin(repo, seed, tier):
+    from pyvc.standin import run_standin
+    return run_standin('C04', tier, seed, repo)
+
+
+_standin.tiers = ('quick', 'thorough')
+BOUNDED = [_standin]
+
 NOT_DECIDED = [
     '(f) attribute completeness after `expr.` against the run-time object (needs the inference engine)',
     'determinism of the input order of completion names (see C16)',
